@@ -40,6 +40,20 @@ class Program:
         self.canon = H
         for is_test, f, d in metas:
             _canonicalise(d, H)
+        # functions that did not exist on the reviewed tree are spliced into their callers (sa/inline.py)
+        self.inlined = {}
+        try:
+            from .rules.tables import known_fns as _kf
+            known = _kf.KNOWN
+        except ImportError:
+            known = None
+        if known is not None and not os.environ.get("VERIF_NO_INLINE"):
+            from .inline import inline_new_helpers
+            raws = {}
+            for is_test, f, d in metas:
+                for b in d["bodies"]:
+                    raws.setdefault(norm_path(b["id"]), b)
+            self.inlined = inline_new_helpers(raws, known, norm_path, _kf.SCOPE)
         for is_test, f, d in metas:
             self.crates.append({"crate": d["crate"], "test": is_test, "nbodies": d["nbodies"],
                                 "file": os.path.basename(f), "types": d.get("crate_types", "")})
